@@ -76,6 +76,13 @@ def scenarios(repo):
     for nm, txt in (("text", TEXT), ("hex", HEX), ("regex", REGEX), ("cond", COND), ("many", MANY)):
         sc.append(("compile_" + nm, "compile", txt, []))
     sc.append(("compile_include", "compile", INCL, ["inc=%s:%s" % (k, hx(v)) for k, v in INCS.items()]))
+    # the same with the arena hook that makes every arena write an allocation (fault position)
+    for nm, txt in (("text", TEXT), ("hex", HEX), ("regex", REGEX), ("cond", COND)):
+        sc.append(("compile_%s_mv" % nm, "compile", txt, ["mv=1"]))
+    sc.append(("compile_ext_mv", "compile", EXT, EXTS + ["mv=1"]))
+    sc.append(("compile_mod_tests_mv", "compile", MODRULES["tests"], ["mv=1"]))
+    sc.append(("scan_mod_hash_mv", "scan", MODRULES["hash"], ["mv=1"]))
+    sc.append(("scan_mod_tests_mv", "rscan", MODRULES["tests"], ["mv=1"]))
     sc.append(("compile_ext", "compile", EXT, EXTS))
     files = {"pe": "file=" + os.path.join(d, "tiny"), "elf": "file=" + os.path.join(d, "elf_with_imports"), "macho": "file=" + os.path.join(d, "tiny-universal"),
              "dex": "blob=dex", "dotnet": "file=" + os.path.join(d, "0ca09bde7602769120fadc4f7a4147347a7a97271370583586c9e587fd396171")}
@@ -273,7 +280,14 @@ def run(tier, replay=None):
     lres = core.lean_check(THM)
     core.proof_coverage(chk, lres, THM)
     b = core.build("asan", harness=["h_oom"])
+    # the arena "always move" hook makes the relocation code patch pointers at unaligned addresses on every allocation,
+    # which UBSan's alignment check stops at once: the *_mv scenarios use a build without that one check
+    bmv = core.build("asan", harness=["h_oom"], extra_defs="-fno-sanitize=alignment", tag="c16mv")
+    HS = {False: b["h_oom"], True: bmv["h_oom"]}
     H = b["h_oom"]
+
+    def harness_of(s):
+        return HS["mv=1" in s[3]]
     r = core.rng("C16")
     scs = scenarios(core.REPO)
     if replay and "scenario" in replay:
@@ -281,7 +295,7 @@ def run(tier, replay=None):
     # 1. counting runs
     count_lines = [case_line("%s.0" % s[0], s, 1, 0) for s in scs]
     with ThreadPoolExecutor(16) as ex:
-        cres = list(ex.map(lambda l: run_chunk(H, [l]), count_lines))
+        cres = list(ex.map(lambda sl: run_chunk(harness_of(sl[0]), [sl[1]]), list(zip(scs, count_lines))))
     base = {}
     found = False
     lsan_reports = []
@@ -318,10 +332,11 @@ def run(tier, replay=None):
         for i in range(0, len(lines), per):
             chunks.append((s, lines[i:i + per]))
     with ThreadPoolExecutor(16) as ex:
-        outs = list(ex.map(lambda c: run_chunk(H, c[1]), chunks))
+        outs = list(ex.map(lambda c: run_chunk(harness_of(c[0]), c[1]), chunks))
     # 3. judge
     failures = []     # (scenario, mode, k, kind, detail dict)
-    addrs = set()
+    addrs = {False: set(), True: set()}
+    is_mv = {x[0]: ("mv=1" in x[3]) for x in scs}
     evaluated = 0
     rc_hist = {}
     for (s, lines), (res, ls) in zip(chunks, outs):
@@ -345,7 +360,7 @@ def run(tier, replay=None):
             for kind in judge(d, base[name]):
                 site = [int(x, 16) for x in d.get("site", "-").split(",") if x != "-"]
                 lsite = [int(x, 16) for x in d.get("lsite", "-").split(",") if x not in ("-", "")] if "lsite" in d else []
-                addrs.update(site); addrs.update(lsite)
+                addrs[is_mv[name]].update(site); addrs[is_mv[name]].update(lsite)
                 failures.append((name, int(mode), int(k), kind, {"out": o["out"], "site_addrs": site, "lsite_addrs": lsite, "baseline": base[name]}))
     # 3b. tie of the Lean ports (Model/AllocM.lean) to the code: per fault position the driver predicts the outcome
     #     class and the number of blocks left allocated; the as-is port and the patched variant are both accepted
@@ -392,7 +407,7 @@ def run(tier, replay=None):
                                       "implementation": {"rc": rrc, "leaked_blocks": rleak}, "model": l,
                                       "note": "Lean port of the function (Model/AllocM.lean, theorems in Thm/C16.lean), as-is and patched variant"})
                         found = True
-    sym = symbolize(H, addrs)
+    syms = {f: symbolize(HS[f], addrs[f]) for f in (False, True)}
     known = core.known_findings("C16")
     groups = {}
     for name, mode, k, kind, det in failures:
@@ -401,6 +416,7 @@ def run(tier, replay=None):
         elif kind in ("no-result", "harness-setup"):
             site, ctx = "?", "?"
         else:
+            sym = syms[is_mv[name]]
             site, ctx = site_of(sym, det["site_addrs"])
             det["failed_allocation_stack"] = [f[0] + " " + f[1] for a in det["site_addrs"] for f in sym.get(a, []) if f[0] not in ALLOC_FRAMES][:9]
             if det.get("lsite_addrs"):
